@@ -19,7 +19,7 @@ RULE = ("(a) Hypothesis programs (1-3 files, includes, local labels, address-ali
         "string <n> and a %<reg>; value also checked against the big-integer evaluator; unused definitions, one of them faulty, in all 120 "
         "orders of five statements (the build must fail with the same identifier in every order). Non-trivial: >= 1 definition moved across "
         ">= 1 of its uses (or a chain); distinct = distinct (original, variant) text pair.")
-ASSUMPTIONS = ["a definition is position independent when its expression contains neither '.' nor a local label",
+ASSUMPTIONS = ["a definition is position independent when its expression contains neither '.' nor a local label, and it is not moved across a '.once'",
                "diagnostics are compared by outcome class only"]
 
 PRACTICE = os.path.join(core.REPO, "tests", "practice")
@@ -109,6 +109,10 @@ def apply_moves(prog, moves):
                 newpos[id(d)] = len(rest)
         # never put a definition in front of a leading base directive ('. =' must stay leading)
         lead = 1 if rest and rest[0]["k"] == "link" and rest[0].get("form") == "dot" else 0
+        # ... nor across '.once' / '.end' (what stands behind them is not assembled at all in a second inclusion / ever)
+        for i_, s_ in enumerate(rest):
+            if s_["k"] in ("once", "end"):
+                lead = max(lead, i_ + 1) if s_["k"] == "once" else lead
         out = list(rest)
         for d in sorted(defs, key=lambda d: -newpos[id(d)]):
             p = max(newpos[id(d)], lead)
